@@ -6,14 +6,16 @@ From SygmaV Require Export Lib.RunLib Model.C07 Model.C11.
 Definition key_of (keys : list N) (p : peer) : N := nth (N.to_nat p) keys 0%N.
 
 Inductive case :=
-(* the first Run of the first attempt returns an injected error; [e] is the value handleError sees *)
-| Fail (keys : list N) (holders : list peer) (t : Z) (self : peer) (pk : proc_kind) (impl_retryable : bool)
+(* the first Run of the first attempt returns an injected error; [e] is the value handleError sees;
+   [tm] = the configured CoordinatorTimeout / TssTimeout in ms; [msgs2] carry the time (ms after the
+   wait began) before which the runner does not deliver them *)
+| Fail (keys : list N) (tm : timing) (holders : list peer) (t : Z) (self : peer) (pk : proc_kind) (impl_retryable : bool)
        (ready1 start1 : list peer) (e : err)
-       (winner : option peer) (ready2 : list peer) (msgs2 : list wmsg) (impl : obs)
+       (winner : option peer) (ready2 : list peer) (msgs2 : list (N * wmsg)) (impl : obs)
 (* the coordinator of the first attempt never speaks: the failure is the implementation's own
    CoordinatorError after CoordinatorTimeout *)
-| Silent (keys : list N) (holders : list peer) (t : Z) (self : peer) (pk : proc_kind) (impl_retryable : bool)
-         (winner : option peer) (ready2 : list peer) (msgs2 : list wmsg) (impl : obs).
+| Silent (keys : list N) (tm : timing) (holders : list peer) (t : Z) (self : peer) (pk : proc_kind) (impl_retryable : bool)
+         (winner : option peer) (ready2 : list peer) (msgs2 : list (N * wmsg)) (impl : obs).
 
 Definition run_eqb (a b : bool * list peer) : bool := Bool.eqb (fst a) (fst b) && list_peer_eqb (snd a) (snd b).
 Fixpoint runs_eqb (a b : list (bool * list peer)) : bool :=
@@ -36,28 +38,28 @@ Definition obs_eqb (a b : obs) : bool :=
 
 Definition model (c : case) : obs :=
   match c with
-  | Fail keys holders t self pk _ ready1 start1 e winner ready2 msgs2 _ =>
-      session (key_of keys) classify holders t self (retryable_of pk) ready1 start1 e winner ready2 msgs2
-  | Silent keys holders t self pk _ winner ready2 msgs2 _ =>
-      session_silent (key_of keys) classify holders t self (retryable_of pk) winner ready2 msgs2
+  | Fail keys tm holders t self pk _ ready1 start1 e winner ready2 msgs2 _ =>
+      session (key_of keys) tm classify holders t self (retryable_of pk) ready1 start1 e winner ready2 msgs2
+  | Silent keys tm holders t self pk _ winner ready2 msgs2 _ =>
+      session_silent (key_of keys) tm classify holders t self (retryable_of pk) winner ready2 msgs2
   end.
 
 Definition agree (c : case) : bool :=
   match c with
-  | Fail _ _ _ _ pk r _ _ _ _ _ _ impl => Bool.eqb (retryable_of pk) r && obs_eqb (model c) impl
-  | Silent _ _ _ _ pk r _ _ _ impl => Bool.eqb (retryable_of pk) r && obs_eqb (model c) impl
+  | Fail _ _ _ _ _ pk r _ _ _ _ _ _ impl => Bool.eqb (retryable_of pk) r && obs_eqb (model c) impl
+  | Silent _ _ _ _ _ pk r _ _ _ impl => Bool.eqb (retryable_of pk) r && obs_eqb (model c) impl
   end.
 
 Definition judge (c : case) : bool :=
   match c with
-  | Fail keys holders t self pk _ ready1 start1 e winner ready2 msgs2 impl =>
+  | Fail keys tm holders t self pk _ ready1 start1 e winner ready2 msgs2 impl =>
       match o_runs impl with
       | [] => true                      (* the first attempt never ran: nothing failed *)
-      | _ :: _ => spec_ok holders (retryable_of pk) e 1 impl
+      | _ :: _ => spec_ok tm msgs2 holders (retryable_of pk) e 1 impl
       end
-  | Silent keys holders t self pk _ winner ready2 msgs2 impl =>
+  | Silent keys tm holders t self pk _ winner ready2 msgs2 impl =>
       match silent_error (key_of keys) holders with
-      | Some e => spec_ok holders (retryable_of pk) e 0 impl
+      | Some e => spec_ok tm msgs2 holders (retryable_of pk) e 0 impl
       | None => true
       end
   end.
@@ -67,11 +69,20 @@ Definition outcome_tag (o : outcome) : N :=
 
 Definition tag (c : case) : N :=
   match c with
-  | Fail keys holders t self pk _ ready1 start1 e winner ready2 msgs2 _ =>
+  | Fail keys tm holders t self pk _ ready1 start1 e winner ready2 msgs2 _ =>
       (outcome_tag (after_failure (retryable_of pk) holders e)
        + (if opt_peer_eqb (coordinator (key_of keys) holders) self then 0 else 4)
-       + (match winner with None => 0 | Some _ => 8 end))%N
-  | Silent keys holders t self pk _ _ _ _ _ =>
+       + (match winner with None => 0 | Some _ => 8 end)
+       (* left out: 32 = a start message arrives between the two timeouts, 64 = after the TSS timeout *)
+       + (match after_failure (retryable_of pk) holders e with
+          | Waited =>
+              (if existsb (fun x : N * wmsg => match snd x with
+                                               | MStart _ (Some _) => (coord_to tm <=? fst x)%N && (fst x <? tss_to tm)%N
+                                               | _ => false end) msgs2 then 32 else 0)
+              + (if snd (left_out_wait tm msgs2) then 64 else 0)
+          | _ => 0
+          end))%N
+  | Silent keys tm holders t self pk _ _ _ _ _ =>
       match silent_error (key_of keys) holders with
       | Some e => (16 + outcome_tag (after_failure (retryable_of pk) holders e))%N
       | None => 31%N
